@@ -172,6 +172,16 @@ def dq_fold_after_escaped_space(d):
     if d.get('kind') not in ('roundtrip_differs', 'emit_parse_differs', 'not_fixed_point'): return False
     return re.search(r'(^|[\r\n]) *\\\\(\r|\n|$)', d.get('text') or '') is not None and _opt(d, 'width') is not None
 
+def escaped_simple_key_over_1024(d):
+    r"""a mapping key of at most 128 characters that is written double-quoted and whose escaped form (\UXXXXXXXX for
+    characters outside the BMP without allow_unicode) is longer than the 1024 characters the scanner allows for a simple
+    key: check_simple_key measures the unescaped length, so the key is written as a simple key that the scanner then
+    refuses ("mapping values are not allowed here" / "could not find expected ':'").  Recognised by such a key in the
+    emitted text; pure-Python emitter only."""
+    if d.get('kind') not in ('dump_unreadable', 'emit_unparsable', 'roundtrip_differs', 'emit_parse_differs', 'count_differs', 'not_fixed_point', 'marker', 'depends_on_followers'): return False
+    if d.get('dumper', d.get('backend', 'py')) not in ('py', None): return False
+    return any(len(m.group(0)) > 1024 for m in re.finditer(r'"(?:[^"\\\r\n]|\\.)*" ?:', d.get('text') or ''))
+
 def folded_more_indented_line_folded(d):
     """folded style ('>') with a small width: write_folded folds at a space inside a more-indented line (a line that
     starts with a space); on reading, more-indented lines keep their breaks, so the space comes back as a line break."""
@@ -325,6 +335,39 @@ def merge_source_tag_ignored(d):
             if n is not None: walk(n, False)
     except Exception: return False
     return foreign_merge[0] and not foreign_elsewhere[0]
+
+def value_key_tag_ignored(d):
+    """a foreign tag on the value of a `=` (tag:yaml.org,2002:value) key inside a mapping that carries a core *scalar* tag:
+    SafeConstructor.construct_scalar takes the text of that value node directly (construct_scalar(value_node)) without
+    dispatching on its tag, so the tag is never rejected - nothing is built from it.  Holds only if every foreign tag of the
+    document sits on such a node."""
+    if d.get('kind') not in ('unknown_tag_accepted', 'object_tag_accepted') or d.get('text') is None: return False
+    import yaml
+    P = 'tag:yaml.org,2002:'
+    core = set(P + x for x in ('null', 'bool', 'int', 'float', 'binary', 'timestamp', 'omap', 'pairs', 'set', 'str', 'seq', 'map', 'merge', 'value'))
+    scalar_tags = set(P + x for x in ('null', 'bool', 'int', 'float', 'binary', 'timestamp', 'str'))
+    elsewhere = [False]; here = [False]; seen = set()
+    def walk(n, value_pos):
+        if n.tag not in core:
+            if value_pos: here[0] = True
+            else: elsewhere[0] = True
+        if id(n) in seen: return
+        seen.add(id(n))
+        if isinstance(n, yaml.SequenceNode):
+            for x in n.value: walk(x, False)
+        elif isinstance(n, yaml.MappingNode):
+            scalar_ctx = n.tag in scalar_tags or value_pos
+            first = True
+            for k, v in n.value:
+                walk(k, False)
+                is_value = scalar_ctx and first and k.tag == P + 'value'
+                if k.tag == P + 'value': first = False
+                walk(v, is_value and isinstance(v, (yaml.ScalarNode, yaml.MappingNode)))
+    try:
+        for n in yaml.compose_all(d['text'], Loader=yaml.SafeLoader):
+            if n is not None: walk(n, False)
+    except Exception: return False
+    return here[0] and not elsewhere[0]
 
 def unsorted_set_iteration_order(d):
     """sort_keys=False and the value contains a set with two or more elements: a set has no insertion order; represent_set
